@@ -103,7 +103,14 @@ class Setup:
         ci, cj = self.L.cells[k]
         lon = self.L._coord(self.L.lon0, ci) + self.L.fdh / 2
         lat = self.L._coord(self.L.lat0, cj) + self.L.fdh / 2
-        return ("ev%d" % i, 1262304000000 + 1000 * i, lat, lon, 10.0, self.edges[m] + self.hm / 2)
+        # magnitude: mid-bin; every fourth event exactly on the bin's lower edge; in the (open) top bin every fourth event far
+        # above the last edge
+        mag = self.edges[m] + self.hm / 2
+        if i % 4 == 3:
+            mag = self.edges[m]
+        elif i % 4 == 1 and m == self.nm - 1:
+            mag = self.edges[m] + 3.5 * self.hm
+        return ("ev%d" % i, 1262304000000 + 1000 * i, lat, lon, 10.0, mag)
 
     def catalog(self, region, obs=None, name="obs"):
         from csep.core.catalogs import CSEPCatalog
